@@ -105,6 +105,9 @@ pub struct Session {
     pub snaps: Vec<Option<Snapshot>>,
     pub iters: HashMap<String, DbIter>,
     pub cfg: (usize, u64, usize, bool),
+    /// number of directory listings the file system had seen when an iterator was last released
+    /// (obsolete files are only collected by remove_obsolete_files, which lists the directories)
+    pub lists_at_release: Option<usize>,
 }
 
 pub fn parse_cfg(tok: &str) -> (usize, u64, usize, bool) {
@@ -153,6 +156,7 @@ impl Session {
                 snaps: vec![],
                 iters: HashMap::new(),
                 cfg,
+                lists_at_release: None,
             }),
             Err(e) => Err(err_class(&e)),
         }
@@ -425,7 +429,9 @@ impl Session {
                 self.iter_script(&name, &body[i + 1..])
             }
             b'Q' => {
-                self.iters.remove(body);
+                if self.iters.remove(body).is_some() {
+                    self.lists_at_release = Some(self.sim.list_calls());
+                }
                 "ok".to_string()
             }
             b'C' => {
